@@ -1,22 +1,22 @@
 #!/bin/bash
 # usage: seedcheck.sh <prop> <i> [extra props to run...]
-# Confirms a sub-agent change (/tmp/wt/<prop>.out/patch<i>.diff + demo<i>_test.go) in a fresh scratch
+# Confirms a sub-agent change (/verif/seeded/<prop>-<i>/patch.diff + demo_test.go) in a fresh scratch
 # copy of /repo: applies, builds, existing suite passes, demo fails with / passes without the change.
 # Then runs the checks of the property (and extra props) on the changed tree.
 P=$1; I=$2; shift 2
-SRC=/tmp/wt/$P.out
+SRC=/verif/seeded/$P-$I
 export GOFLAGS=-mod=mod GOPROXY=off GOSUMDB=off GOTOOLCHAIN=local
 T=$(mktemp -d /tmp/seed.XXXXXX); trap 'rm -rf "$T"' EXIT
 rsync -a --exclude .git /repo/ "$T/repo/"
 cd "$T/repo"
-DEMO=$(grep -o 'func Test[A-Za-z0-9_]*' "$SRC/demo${I}_test.go" | head -1 | sed 's/func //')
-cp "$SRC/demo${I}_test.go" ./zz_seed_demo_test.go
+DEMO=$(grep -o 'func Test[A-Za-z0-9_]*' "$SRC/demo_test.go" | head -1 | sed 's/func //')
+cp "$SRC/demo_test.go" ./zz_seed_demo_test.go
 timeout 120 go test -vet=off -count=1 -timeout 60s -run "^${DEMO}\$" . > "$T/demo_clean.log" 2>&1; RC_CLEAN=$?
 rm zz_seed_demo_test.go
-if ! patch -p1 -s < "$SRC/patch${I}.diff"; then echo "RESULT $P-$I patch-does-not-apply"; exit 1; fi
+if ! patch -p1 -s < "$SRC/patch.diff"; then echo "RESULT $P-$I patch-does-not-apply"; exit 1; fi
 go build ./... > "$T/build.log" 2>&1 || { echo "RESULT $P-$I build-fails"; cat "$T/build.log" | head; exit 1; }
 timeout 400 go test -vet=off -count=1 -timeout 300s ./... > "$T/suite.log" 2>&1; RC_SUITE=$?
-cp "$SRC/demo${I}_test.go" ./zz_seed_demo_test.go
+cp "$SRC/demo_test.go" ./zz_seed_demo_test.go
 timeout 120 go test -vet=off -count=1 -timeout 60s -run "^${DEMO}\$" . > "$T/demo_mut.log" 2>&1; RC_MUT=$?
 rm zz_seed_demo_test.go
 echo "RESULT $P-$I demo=$DEMO clean_demo_rc=$RC_CLEAN suite_rc=$RC_SUITE mutated_demo_rc=$RC_MUT"
